@@ -8,11 +8,11 @@ def run(tier):
     res = gen_pipeline.run(tier, chk.seed)
     gen_pipeline.apply(chk, res, ["C07"])
     st = res["stats"]
-    if st["both_ok"] < 100 or st["both_rejected"] < 100:
+    if st["both_ok"] < 100 or st["both_rejected"] < 100 or st.get("refsel_accepted_multi_ref", 0) < 20:
         raise ToolError("C07 vacuity guard: %r" % st)
     chk.rule = ("generators = every output shape of MC_GenShape (outer list / terminator / arity / field shapes / puzzles / flags / refs), wrapped as (q . out) in plain "
                 "and back-reference serialisation + seeded random generators built from the condition generator (salted identity puzzles) + the repository's "
-                "generator-tests corpus (programs whose output is large are judged by the pair of verdicts only); both run_block_generator and run_block_generator2 "
+                "generator-tests corpus + reference-selecting generators (RefSelProg of Generator.tla: the first parent is block reference k of 1..3 distinct references, k in and beyond range) (programs whose output is large are judged by the pair of verdicts only); both run_block_generator and run_block_generator2 "
                 "run on the same arguments and TLC evaluates Agree on the two results (and the native result against Generator.tla); non-trivial = accepted with "
                 "spends, or the two paths differ, or rejected for a reason other than a malformed list; distinct by (program, flags, limit, refs, serialisation)")
     chk.assumptions = ["CLVM execution results are oracle inputs from clvmr run by the harness itself",
